@@ -276,6 +276,8 @@ def execute(plan, sched_spec=None):
     except OSError:
         pass
     sys.setswitchinterval(1000.0)
+    from sim import locks
+    locks.install()
     return _Exec(plan, sched_spec).run()
 
 
@@ -471,6 +473,8 @@ def judge(plan, result, refs):
         from sim.common import ForkError
         raise ForkError('task thread crashed: %r' % (sched['errors'],))
     stats = {'points': sched['points'], 'switches': sched['switches'],
+             'lock_blocks': sched.get('lock_blocks', 0), 'hot_points': sched.get('hot_points', 0),
+             'probe_switches': sched.get('probe_switches', 0),
              'kind_counts': dict(sched['kind_counts']), 'faults_fired': dict(result['faults']),
              'feeds': len(result['obs']), 'instances': 0, 'compared': 0,
              'max_ntasks': nt, 'runs_by_ntasks': {str(nt): 1},
@@ -672,6 +676,10 @@ def evidence(tier, seed, by_mode, det, n_viol, known_hits, errors, wall):
             'dea_vs_epsalg_checks': s.get('dea_eps_checked', 0),
             'isolation_reference_evaluations': s.get('ref_evals', 0),
             'yield_points': s.get('points', 0), 'preemptions': s.get('switches', 0),
+            'hot_yield_points_after_shared_writes': s.get('hot_points', 0),
+            'atomicity_probe_switches': s.get('probe_switches', 0),
+            'waits_on_library_locks': s.get('lock_blocks', 0),
+            'seeds_per_hour': int(s.get('runs', 0) * 3600 / w),
             'runs_by_ntasks': s.get('runs_by_ntasks', {}), 'max_threads': s.get('max_ntasks', 0),
         }
     faults['preemption'] = sum(s.get('switches', 0) for s in by_mode.values())
